@@ -4,3 +4,5 @@ import Driver.Layers
 import Driver.CApi
 import Driver.Keys
 import Driver.Cli
+import Driver.Format
+import Driver.Stack
